@@ -9,6 +9,7 @@ import (
 	"go/ast"
 	"go/types"
 	"math/big"
+	"strings"
 )
 
 type modelFn func(x *Exec, fr *Frame, st *State, pc *preparedCall, k func(*State, []Value))
@@ -683,6 +684,43 @@ func (x *Exec) rangeYield(fr *Frame, s *ast.RangeStmt, st *State, rv Value, k fu
 			piece := subview(x, st, src.str, "piece")
 			k(st, piece, nil)
 			return
+		}
+	}
+	// iterator stored in a function field with a contract: the yielded pair satisfies its ensures
+	if se, ok := ast.Unparen(s.X).(*ast.SelectorExpr); ok {
+		if sel, ok := info.Selections[se]; ok && sel.Kind() == types.FieldVal {
+			rt := x.resolveType(sel.Recv())
+			if p, ok := rt.(*types.Pointer); ok {
+				rt = p.Elem()
+			}
+			fkey := typeKey(rt) + "." + se.Sel.Name
+			for _, fc := range x.C.FnFields {
+				parts := strings.SplitN(fc.Name, ".", 2)
+				if len(parts) == 2 && strings.Contains(fkey, parts[0]) && strings.HasSuffix(fkey, "."+parts[1]) {
+					var kv, vv Value
+					if kt != nil {
+						kv = x.freshValue(st, kt, "yieldk")
+					}
+					if vt != nil {
+						vv = x.freshValue(st, vt, "yieldv")
+						if p, ok := vv.(PtrV); ok {
+							x.assumeAllocated(st, p.Addr)
+						}
+					}
+					env := &SpecEnv{x: x, st: st, vars: map[string]Value{}, bound: map[string]Value{}, pkgPath: fr.pkg.PkgPath, fr: fr}
+					if len(fc.Results) > 0 && kv != nil {
+						env.vars[fc.Results[0].Name] = kv
+					}
+					if len(fc.Results) > 1 && vv != nil {
+						env.vars[fc.Results[1].Name] = vv
+					}
+					for _, e := range fc.Ensures {
+						st.assumeRaw(x.specBool(env, e.Expr))
+					}
+					k(st, kv, vv)
+					return
+				}
+			}
 		}
 	}
 	if h, ok := x.iterHook(fr, s, st, rv); ok {
